@@ -649,7 +649,38 @@ class Library:
                 return abs(a - b) <= atol + rtol * abs(b)
             raise OutOfReach("np.isclose on arrays")
 
-        return {"prod": np_prod, "argmax": np_argmax, "isclose": np_isclose, "mean": np_mean, "clip": np_clip, "block": np_block, "array": np_array, "roll": np_roll, "zeros_like": np_zeros_like, "empty_like": np_zeros_like, "empty": np_empty,
+        def np_diag(a, k=0):
+            if isinstance(a, ix.IArr) and len(a.vshape) == 2 and k == 0:
+                snap = a._snapshot()
+                return ix.IArr.from_fn([smin(a.vshape[0], a.vshape[1])], lambda vi: snap((vi[0], vi[0])), quat=a.quat, cplx=a.cplx)
+            raise OutOfReach("np.diag form")
+
+        def np_where(c, x=None, y=None):
+            if x is None or y is None:
+                raise OutOfReach("np.where with one argument")
+            if isinstance(c, ix.IArr):
+                sc = c._snapshot()
+                fx = x._snapshot() if isinstance(x, ix.IArr) else (lambda vi: x)
+                fy = y._snapshot() if isinstance(y, ix.IArr) else (lambda vi: y)
+                for z in (x, y):
+                    if isinstance(z, ix.IArr):
+                        for d1, d2 in zip(z.vshape, c.vshape):
+                            ncm.dims_equal(d1, d2, "conformable.where")
+                lift = lambda v: Fraction(repr(v)) if isinstance(v, float) else v
+                return ix.IArr.from_fn(list(c.vshape), lambda vi: ix.ite(sc(tuple(vi)), lift(fx(tuple(vi))), lift(fy(tuple(vi)))))
+            raise OutOfReach("np.where form")
+
+        def np_sign(x):
+            one = lambda v: ix.ite(v > 0, Fraction(1), ix.ite(v < 0, Fraction(-1), Fraction(0)))
+            if isinstance(x, ix.IArr):
+                if x.quat or x.cplx or x.hcell:
+                    raise OutOfReach("np.sign of a non-real array")
+                return x.map(one)
+            if is_reallike(x):
+                return one(x)
+            raise OutOfReach("np.sign form")
+
+        return {"sign": np_sign, "newaxis": None, "diag": np_diag, "where": np_where, "prod": np_prod, "argmax": np_argmax, "isclose": np_isclose, "mean": np_mean, "clip": np_clip, "block": np_block, "array": np_array, "roll": np_roll, "zeros_like": np_zeros_like, "empty_like": np_zeros_like, "empty": np_empty,
                 "concatenate": np_concatenate, "real": np_real, "imag": np_imag, "any": np_any, "allclose": np_allclose}
 
     # -- FFT (axiomatised): fft2 of a real array is an uninterpreted complex function of the frequency;
